@@ -35,6 +35,8 @@ def run(ck: Check) -> int:
     from pytezos.crypto.key import Key
     from pytezos.operation.group import OperationGroup
 
+    from props import C23_P
+    C23_P.run_P(ck)       # lead's deductive part: wrapper logic over opaque forged bytes / key / hash
     for f in (OperationGroup.sign, OperationGroup.hash, OperationGroup.binary_payload):
         ck.function(f)
     ck.function(Key.sign)
